@@ -184,7 +184,7 @@ pub fn run(ctx: &Ctx) -> Report {
         }
     });
     rep.merge(r);
-    if !ctx.miri && ctx.only.is_none() {
+    if ctx.strict() {
         rep.require("parameters_compared", 10_000);
         rep.require("conversions_compared", 5000);
         rep.require("second_bitmap_byte_cases", 100);
